@@ -290,6 +290,12 @@ func (c *relCtx) c06(t *expr.Expr, ci, di int, p partsJSON, info map[string]inte
 			return
 		}
 	}
+	if alias != "" && keyNames[t.Sel.Path[0]] {
+		// `any recs as recs, v {...}`: inside the braces the name recs is the position, so the element alias recs.i itself cannot be
+		// resolved there (the code reports an error); the unrolled bodies, outside the braces, can - no unrolling law for this shape
+		c.skip["the position binding shadows the collection's own root"]++
+		return
+	}
 	st := expr.Style{}
 	r, text := c.obs(t, st, ci, di)
 	if r == "" {
